@@ -789,23 +789,31 @@ func equal(a, b reflect.Value, path string) string {
 			}
 		}
 	case reflect.Ptr:
-		ek := t.Elem().Kind()
-		if ek == reflect.Slice || ek == reflect.Map {
-			// nil pointer ≡ pointer to empty
-			la, lb := 0, 0
-			if !a.IsNil() {
-				la = a.Elem().Len()
+		// a pointer chain that ends in a slice or map: the schema has no null there, so a nil
+		// pointer at any level ≡ pointers to an empty collection
+		et := t
+		for et.Kind() == reflect.Ptr {
+			et = et.Elem()
+		}
+		if et.Kind() == reflect.Slice || et.Kind() == reflect.Map {
+			eff := func(v reflect.Value) (reflect.Value, int) {
+				for v.Kind() == reflect.Ptr {
+					if v.IsNil() {
+						return reflect.Value{}, 0
+					}
+					v = v.Elem()
+				}
+				return v, v.Len()
 			}
-			if !b.IsNil() {
-				lb = b.Elem().Len()
-			}
+			va, la := eff(a)
+			vb, lb := eff(b)
 			if la == 0 && lb == 0 {
 				return ""
 			}
-			if a.IsNil() || b.IsNil() {
+			if !va.IsValid() || !vb.IsValid() {
 				return fmt.Sprintf("%s: nil vs non-empty", path)
 			}
-			return equal(a.Elem(), b.Elem(), path+"*")
+			return equal(va, vb, path+"*")
 		}
 		if a.IsNil() != b.IsNil() {
 			return fmt.Sprintf("%s: nil %v vs %v", path, a.IsNil(), b.IsNil())
